@@ -53,6 +53,9 @@ class State:
         n.heap = {k: (list(v) if isinstance(v, list) else dict(v)) for k, v in self.heap.items()}
         n.handling = self.handling
         n.loop_depth = self.loop_depth
+        for k in ("old", "entry_env"):
+            if hasattr(self, k):
+                setattr(n, k, getattr(self, k))
         return n
 
     # heap
